@@ -1326,7 +1326,7 @@ func (a *align) Mask(refseq string, start, length int, maskreplace string, nogap
 	}
 
 	var refchar uint8 = '.'
-	for i := start; i < (start+length) && i < a.Length(); i++ {
+	for i := start; i-start < length && i < a.Length(); i++ {
 		if refseq != "" && noref {
 			refchar = refSequence.CharAt(i)
 		}
